@@ -128,6 +128,8 @@ namespace igris
         void unlink_and_move_all_nodes_from_other(dlist_base &&oth)
         {
             list.unlink();
+            if (!oth.list.is_linked())
+                return;
             list.next = oth.list.next;
             list.prev = oth.list.prev;
             list.next->prev = &list;
